@@ -11,6 +11,7 @@ from ..viol import Violation, require
 ID = 'C18'
 LEVEL = 'exploration'
 RULE = (
+    'Sandwich: succ / descendants / to_nx / DOT views of functions in a manager with an unused variable, before and after one perturbation (undeclare / declare / swap / collect / reorder / sift). Roots are passed as set, list, iterator or generator. '
     'E: every function of n<=4 variables (n<=3 all orders; n=4 seeded '
     'orders, 2 quick / 4 thorough), regular and complemented roots; R: '
     'seeded sets of 1-4 roots. Oracle: a user-style recursion over '
@@ -32,8 +33,58 @@ ASSUMPTIONS = [
 ]
 
 
+def _sandwich_calls(b, refs, nm, den):
+    import dd.autoref as _ar
+    cwd = os.getcwd()
+    n = 3
+
+    class _A:
+        pass
+    for t in range(0, 256, 3):
+        def call(t=t):
+            # the views of the wrapped manager after the perturbation
+            u = refs[t]
+            names5 = tuple(nm) + ('zz', 'zz_new')
+            i, v, w = b.succ(u)
+            if abs(u) != 1:
+                x = b.var_at_level(i)
+                require(x in nm, 'succ.level_names_wrong_variable',
+                        dict(level=i, var=x))
+                j = nm.index(x)
+                reg = t if u > 0 else (~t & 255)
+                d = Den(b, names5)
+                require(d(v) == tt.widen(tt.cof(reg, n, j, 0), n, 5) and
+                        d(w) == tt.widen(tt.cof(reg, n, j, 1), n, 5),
+                        'succ.wrong_cofactors')
+            want_nodes = reachable(b, [u])
+            require(set(b.descendants([u])) == want_nodes,
+                    'descendants.wrong')
+            g = __import__('dd.bdd').bdd.to_nx(b, [u])
+            require(set(g.nodes) == want_nodes, 'nx.node_set')
+            got = eval_nx(g, u, b, names5, 5)
+            require(got == tt.widen(t, n, 5), 'nx.wrong_function',
+                    dict(t=t, got=got))
+            fname = os.path.join(cwd, 'sw.dot')
+            b.dump(fname, roots=[u])
+            with open(fname) as fd:
+                text = fd.read()
+            os.remove(fname)
+            ids, rt = eval_dot(text, names5, 5)
+            require(ids == want_nodes, 'dot.node_set')
+            require(rt.get(u) == tt.widen(t, n, 5), 'dot.wrong_function',
+                    dict(t=t, got=rt.get(u)))
+            for label, members in read_ranks(text):
+                for u_ in members:
+                    if not u_.startswith('"ref'):
+                        require(label is not None and label.isdigit() and
+                                int(label) == b.succ(int(u_))[0],
+                                'dot.node_in_wrong_level_rank')
+        yield dict(t=t), call
+
+
 def plan(tier, seed):
     specs = []
+    specs += fix.sandwich_specs(tier, seed)
     for n in (1, 2, 3):
         for order in fix.orders(n):
             specs.append(dict(kind='all', n=n, order=order, part=0, parts=1,
@@ -261,7 +312,15 @@ def check_views(b, A, nm, n, roots_t, refs, cwd, tag):
                     'function.terminal_views')
         del f
     # networkx export
-    g = _bdd.to_nx(b, set(roots))
+    # `roots` may be any iterable of references
+    k_ = len(roots) + sum(roots_t)
+    roots_arg = (set(roots) if k_ % 4 == 0 else list(roots) if k_ % 4 == 1
+                 else iter(list(roots)) if k_ % 4 == 2
+                 else (x_ for x_ in list(roots)))
+    g = _bdd.to_nx(b, roots_arg)
+    got_d = b.descendants(iter(list(roots)))
+    require(set(got_d) == want_nodes, 'descendants.wrong',
+            dict(got=sorted(got_d), want=sorted(want_nodes)))
     require(set(g.nodes) == want_nodes or (not roots and not g.nodes),
             'nx.node_set', dict(got=sorted(g.nodes),
                                 want=sorted(want_nodes)))
@@ -349,10 +408,16 @@ def run_all(spec, out):
 
 
 def run(spec, out):
+    if spec['kind'] == 'sandwich':
+        return fix.run_sandwich(spec, out, _sandwich_calls)
     run_all(spec, out)
 
 
 def replay_into(case, out):
+    if case.get('kind') == 'sandwich':
+        return fix.run_sandwich({k: case[k] for k in (
+            'kind', 'perturbation', 'pos', 'order', 'seed')}, out,
+            _sandwich_calls)
     spec = {k: case[k] for k in ('kind', 'n', 'order', 'part', 'parts',
                                  'seed')}
     run_all(spec, out)
